@@ -449,6 +449,12 @@ def coerce(v, kind):
             if k not in kind.fields:
                 raise Unsupported('record key %r not declared in %r' % (k, kind))
         return V(kind, terms)
+    if isinstance(v.kind, Atom) and v.kind.sort_name == 'Opaque' and kind.nleaves() == 1 and \
+            not isinstance(kind, (Ref, Atom)):
+        # an unmodelled (opaque) value used where a string / number is expected: an unconstrained value of that kind,
+        # a function of the opaque value
+        f = z3.Function('opq2!%s' % kind, v.t.sort(), kind.leaf_sorts()[0])
+        return V(kind, [f(v.t)])
     raise Unsupported('cannot coerce %r to %r' % (v.kind, kind))
 
 
